@@ -9,6 +9,7 @@ import DDS.Props.C02GenPag
 import DDS.Props.C05GenSketch
 import DDS.Props.C04GenPag
 import DDS.Props.NonVacuity
+import DDS.Props.C06GenPag
 
 namespace DDS.Props.NonVacuityGen
 
@@ -358,5 +359,80 @@ example : ∃ o : PStore, Inv o ∧ content o = [(3, 7), (40, 2)] ∧
   exact ⟨g', s', h1, h2, h3, by rw [h4]; decide +kernel⟩
 
 end C04
+
+/-! ## C06GenPag: encoding and decoding of `pagS` -/
+section C06
+open DDS.PStore DDS.GenPag DDS.Gen.Paginated DDS.Gen.Encoding DDS.Props.C06GenPag
+open DDS.Props.NonVacuity (pagS pagS_inv pagS_content)
+
+/-- `gen_pag_Encode`: the positive-store flag, a non-empty prefix of bytes already written -/
+example (cap : Int) : ∃ s' blocks, Sketch.encodeStore (.pg pagS) .pos = some (.pg s', blocks) ∧
+    BufferedPaginatedStore.Encode (encodeFuel compactFuel pagS) (toGen pagS cap) [7#8, 9#8] FlagTypePositiveStore
+      = .ok (toGen s' cap, [7#8, 9#8] ++ DDS.GenEncoding.bn (Wire.encBlocks blocks)) ∧
+    PStore.Inv s' ∧ content s' = [(3, 5 / 2), (40, 1)] := by
+  obtain ⟨s', bl, h1, h2, h3, h4⟩ := gen_pag_Encode (encodeFuel compactFuel pagS) pagS cap .pos
+    FlagTypePositiveStore (by decide) [7#8, 9#8] pagS_inv (by decide) (Nat.le_refl _)
+  rw [pagS_content] at h4
+  exact ⟨s', bl, h1, h2, h3, h4⟩
+
+/-- an index-delta block announcing 3 bins with deltas `5, 2, -1` (indexes `5, 7, 6`), followed by one more byte -/
+def deltaBytes : List (BitVec 8) := [3#8, 10#8, 4#8, 1#8, 7#8]
+
+theorem deltaBytes_count : Codec.decUvarint64 (DDS.GenEncoding.nb deltaBytes) = .ok (3, [10, 4, 1, 7]) := by
+  decide +kernel
+
+theorem deltaBytes_indexes :
+    DDS.GenStoreDecode.storeIndexes Consts.binEncodingIndexDeltas (DDS.GenEncoding.nb deltaBytes) = [5, 7, 6] := by
+  decide +kernel
+
+/-- the model decodes that block into `pagS` and leaves the last byte -/
+theorem deltaBytes_model :
+    (Sketch.decodeStore (.pg pagS) Consts.binEncodingIndexDeltas (DDS.GenEncoding.nb deltaBytes)).map
+      (fun r => match r with | .ok (_, rest) => some rest | .error _ => none) = some (some [7]) := by
+  decide +kernel
+
+/-- `gen_pag_Decode_deltas`: all five hypotheses hold of `pagS` (buffer of length 1, trigger 64), capacity 4,
+    every growth policy and every fallback; the regenerated decoder returns a store with the invariant, the
+    remaining byte and a nil error -/
+example (grow : Int → Int → Int)
+    (fb : GP → List (BitVec 8) → SubFlag → Res (GP × List (BitVec 8) × GoErr)) :
+    ∃ s' cap', BufferedPaginatedStore.DecodeAndMergeWith (deltasFuel compactFuel grow pagS 4 deltaBytes) grow fb
+        (toGen pagS 4) deltaBytes BinEncodingIndexDeltas = .ok (toGen s' cap', [7#8], GoErr.nil) ∧
+      PStore.Inv s' := by
+  have h := gen_pag_Decode_deltas grow fb _ pagS 4 deltaBytes pagS_inv (by decide)
+    (by
+      intro v rest hv
+      rw [deltaBytes_count] at hv
+      cases hv
+      decide)
+    (by
+      intro u hu
+      rw [deltaBytes_indexes] at hu
+      simp only [List.mem_cons, List.not_mem_nil, or_false] at hu
+      rcases hu with rfl | rfl | rfl <;> exact ⟨by decide, by decide⟩)
+    (Nat.le_refl _)
+  have hm := deltaBytes_model
+  cases hd : Sketch.decodeStore (.pg pagS) Consts.binEncodingIndexDeltas (DDS.GenEncoding.nb deltaBytes) with
+  | none => rw [hd] at hm; cases hm
+  | some r =>
+    rw [hd] at hm h
+    cases r with
+    | error e => cases hm
+    | ok p =>
+      obtain ⟨st', rest⟩ := p
+      simp only [Option.map_some, Option.some.injEq] at hm
+      cases hm
+      obtain ⟨s', cap', st'', h1, _, h3, _⟩ := h
+      exact ⟨s', cap', h1, h3⟩
+
+/-- `gen_pag_Decode_other` -/
+example (grow : Int → Int → Int)
+    (fb : GP → List (BitVec 8) → SubFlag → Res (GP × List (BitVec 8) × GoErr)) (fuel : Nat) (g : GP)
+    (b : List (BitVec 8)) :
+    BufferedPaginatedStore.DecodeAndMergeWith fuel grow fb g b BinEncodingIndexDeltasAndCounts
+      = fb g b BinEncodingIndexDeltasAndCounts :=
+  gen_pag_Decode_other grow fb fuel g b _ (by decide) (by decide)
+
+end C06
 
 end DDS.Props.NonVacuityGen
